@@ -82,6 +82,15 @@ type Inst interface {
 	Describe(o Op) string
 }
 
+// phased instances split a transition into the operation proper (Do) and the
+// observer comparison (Content), so that the engine can fingerprint the state BEFORE
+// any observer has been called on it: an observer that modifies the container (a
+// lazily shrinking Values()) would otherwise be folded into the transition.
+type phased interface {
+	Do(o Op) *Viol
+	Content() *Viol
+}
+
 // Sys creates fresh instances.
 type Sys interface {
 	Name() string
@@ -360,7 +369,29 @@ func (e *Explorer) Run() *Found {
 			}
 			o := o
 			setInflight(func() string { return fmt.Sprintf("%s path=%v op=%s", e.Sys.Name(), path, o) })
-			v := safeStep(in, o, props)
+			var v *Viol
+			var k string
+			var h [16]byte
+			if ph, ok := in.(phased); ok {
+				v = safeCheck(func() *Viol { return ph.Do(o) }, props, o.String())
+				if v == nil {
+					k = in.Key() // fingerprint before any observer ran on the new state
+					h = hash16(k)
+					v = safeCheck(ph.Content, props, "Size/Keys/Values after "+o.String())
+					if _, known := e.seen[h]; v == nil && !known {
+						if k2 := in.Key(); k2 != k {
+							v = &Viol{Props: append(append([]string{}, props...), "C15", "C18"), Class: "invariant",
+								Msg: fmt.Sprintf("the observers Size/Keys/Values called after %s changed the container's state:\n before %s\n after  %s", o, clip(k, 400), clip(k2, 400))}
+						}
+					}
+				}
+			} else {
+				v = safeStep(in, o, props)
+				if v == nil {
+					k = in.Key()
+					h = hash16(k)
+				}
+			}
 			e.St.Transitions++
 			e.St.OpsHistogram[o.N]++
 			if v == nil && e.OutGuard {
@@ -375,8 +406,6 @@ func (e *Explorer) Run() *Found {
 				e.St.Nested["transitions_with_foreign_violation"]++
 				continue
 			}
-			k := in.Key()
-			h := hash16(k)
 			if k == kb {
 				e.St.Noop++
 			} else {
@@ -484,7 +513,21 @@ func (e *Explorer) ReplayOne(path []Op, last *Op) *Found {
 		}
 	}
 	if last != nil {
-		v := safeStep(in, *last, props)
+		var v *Viol
+		if ph, ok := in.(phased); ok {
+			o := *last
+			v = safeCheck(func() *Viol { return ph.Do(o) }, props, o.String())
+			if v == nil {
+				k := in.Key()
+				v = safeCheck(ph.Content, props, "Size/Keys/Values after "+o.String())
+				if k2 := in.Key(); v == nil && k2 != k {
+					v = &Viol{Props: append(append([]string{}, props...), "C15", "C18"), Class: "invariant",
+						Msg: fmt.Sprintf("the observers Size/Keys/Values called after %s changed the container's state:\n before %s\n after  %s", o, clip(k, 400), clip(k2, 400))}
+				}
+			}
+		} else {
+			v = safeStep(in, *last, props)
+		}
 		if v == nil && e.OutGuard {
 			v = outGuardCheck(last.String())
 		}
